@@ -336,6 +336,53 @@ def run(cx, rep):
                 init = al.get(body_arg.get("value")) if body_arg["type"] == "Identifier" else body_arg
                 mc = method_call(init) if init is not None else None
                 ok = bool(mc) and mc[1] == "schema" and len(mc[2]) == 1 and s(mc[2][0]) == "ctx"
+                # the body may be produced by a THUNK the unit receives as a parameter (b103: the two copies of the
+                # protocol merged into `ensureContextualDefinition(printingContext, name, printBody)`, stored body
+                # `printBody()`): the unit's callers are judged - each must hand over a parameterless function whose
+                # every result is `<target>.schema(ctx)` with the caller's own ctx
+                ups = ts_common.fn_params(fn)
+                ic = unparen(init) if init is not None else None
+                if not ok and ic is not None and ic.get("type") == "CallExpression" and not ic["arguments"] and unparen(ic["callee"]).get("type") == "Identifier" \
+                        and unparen(ic["callee"])["value"] in ups and unparen(ic["callee"])["value"] not in al:
+                    k = ups.index(unparen(ic["callee"])["value"])
+                    thunks = []
+                    for c2, m2, fn2, _l2 in units:
+                        if fn2 is fn:
+                            continue
+                        al2 = ts_common.local_aliases(fn2)
+                        for x in walk(fn2):
+                            if x["type"] != "CallExpression":
+                                continue
+                            hit = (cname is None and unparen(x["callee"]).get("type") == "Identifier" and unparen(x["callee"])["value"] == mname) or \
+                                  (cname is not None and c2 == cname and method_call(x) and s(method_call(x)[0]) == "this" and method_call(x)[1] == mname)
+                            if not hit:
+                                continue
+                            a = unparen(x["arguments"][k]["expression"]) if k < len(x["arguments"]) and not any(a_.get("spread") for a_ in x["arguments"]) else None
+                            if a is not None and a.get("type") == "Identifier":
+                                a = unparen(al2[a["value"]]) if a["value"] in al2 else None
+                            thunks.append((a, al2))
+                    ok = bool(thunks)
+                    for a, al2 in thunks:
+                        if a is None or a.get("type") not in ("ArrowFunctionExpression", "FunctionExpression") or a.get("params") or a.get("generator") or a.get("async"):
+                            ok = False
+                            init = a if a is not None else init
+                            continue
+                        b = a["body"]
+                        results = [b] if b.get("type") != "BlockStatement" else [r_.get("argument") for r_ in tsast.walk_no_nested_fn(b) if r_["type"] == "ReturnStatement"]
+                        tal = dict(al2)
+                        tal.update(ts_common.local_aliases(a))
+                        rebinds_ctx = "ctx" in ts_common.local_aliases(a)
+                        for r_ in results:
+                            r_ = unparen(r_) if r_ is not None else None
+                            if r_ is not None and r_.get("type") == "Identifier" and r_["value"] in tal:
+                                r_ = unparen(tal[r_["value"]])
+                            mr = method_call(r_) if r_ is not None else None
+                            if not (mr and mr[1] == "schema" and len(mr[2]) == 1 and s(mr[2][0]) == "ctx") or rebinds_ctx:
+                                ok = False
+                                init = r_ if r_ is not None else a
+                        if not results:
+                            ok = False
+                            init = a
                 rep.ob("C16.3", "%s/body" % ulabel, ok,
                        "the stored definition must be `<target>.schema(ctx)` with the caller's own ctx (found %s)" % (s(init) if init is not None else None), mod.loc(call),
                        sample={"site": ulabel, "body": s(init) if init is not None else None})
